@@ -280,7 +280,7 @@ def c05(c):
         progs.append(dict(src='c05_format.cpp', build='clang', variants=_t_eng_variants(3), shards={'thorough': 1}))
         progs.append(dict(src='c05_format.cpp', build='memcheck', variants=[v for v in _t_eng_variants(3) if not v[0].startswith('ldouble')], shards={'thorough': 2}, args=['--tier', 'quick']))
     c.std(progs)
-    for k in ('fields_compared', 'stored_generators_compared', 'checkpoints_plain', 'checkpoints_vegas', 'checkpoints_multi_channel'):
+    for k in ('fields_compared', 'stored_generators_compared', 'checkpoints_plain', 'checkpoints_vegas', 'checkpoints_multi_channel', 'default_checkpoints_never_run'):
         c.require(k)
 
 
@@ -330,7 +330,7 @@ def c15(c):
 def c03(c):
     eng = ENGINES9 if c.tier == 'thorough' else ENGINES9[:3]
     c.std([dict(src='c03_resume.cpp', build='asan', variants=_t_engine_variants(eng), shards={'quick': 2, 'thorough': 1})])
-    for k in ('compositions_checked', 'interruptions', 'cases_file_transport', 'cases_text_transport', 'runs_stopped_early_by_target',
+    for k in ('compositions_checked', 'interruptions', 'initial_checkpoints_reloaded_before_the_first_iteration', 'cases_file_transport', 'cases_text_transport', 'runs_stopped_early_by_target',
               'cases_plain+dists', 'cases_vegas-default+dists', 'cases_vegas-user-grid', 'cases_mc-default', 'cases_mc-user-weights+dists'):
         c.require(k)
 
